@@ -479,7 +479,7 @@ TRK_PRIORS = ["exact", "merged", "unsorted", "overlap", "oob", "zero", "offb"]
 AUTHOR_ID = {"H": "human", "A1": "A1", "A2": "A2"}
 
 
-def trk_content(u, fam, nold):
+def trk_content(u, fam, fresh):
     """-> list of (text, is_identity): identity words are unique to the line (they carry its uid); the rest
     (punctuation, emoji, combining marks) stresses the tokenizer and the byte arithmetic but is shared between
     lines, so the token-level diff may legitimately keep it with the old author of a replaced line"""
@@ -490,16 +490,16 @@ def trk_content(u, fam, nold):
                 ("ß%dq" % u, True), (");", False)]
     if fam == "long":
         return [(("L%d_" % u) * 1500, True), (" ", False), ("end%d" % u, True)]
-    if fam == "blankfresh" and u > nold:
+    if fam == "blankfresh" and fresh:
         return []
-    if fam == "repeated" and u > nold and nold > 0:
+    if fam == "repeated" and fresh:
         return [("tok1a", True), (" ", False), ("tok1b", True), (" ", False), ("tok1c", True)]
     if fam == "punct":           # shared punctuation: the token-level diff has several equally good answers
         return [("tok%da" % u, True), (" ", False), ("tok%db" % u, True), ("(", False), ("tok%dc" % u, True), (");", False)]
     return [("tok%da" % u, True), (" ", False), ("tok%db" % u, True), (" ", False), ("tok%dc" % u, True)]
 
 
-def trk_render(lines, fam, nold, salt, is_new):
+def trk_render(lines, fam, olduids, salt, is_new):
     """-> (text, line byte spans, identity byte ranges per line)"""
     eol = "\r\n" if fam == "crlf" else "\n"
     out = []
@@ -507,7 +507,7 @@ def trk_render(lines, fam, nold, salt, is_new):
     idents = []
     pos = 0
     for i, (u, w) in enumerate(lines):
-        parts = trk_content(u, fam, nold)
+        parts = trk_content(u, fam, bool(olduids) and u not in olduids)
         ind = ["", "    ", "\t  "][w if w == 0 else 1 + salt % 2]
         trail = " " if (w and salt % 3 == 0) else ""
         last = i == len(lines) - 1
@@ -591,9 +591,9 @@ def execute_tracker(args):
         shape = cfg.get("filefam", "exact")
         if fam not in ("multibyte", "combining") and shape == "offb":
             shape = "exact"
-        nold = 10
-        old_text, ospans, _ = trk_render(c["old"], fam, nold, salt, False)
-        new_text, nspans, nidents = trk_render(c["new"], fam, nold, salt, True)
+        olduids = {u for u, _ in c["old"]}
+        old_text, ospans, _ = trk_render(c["old"], fam, olduids, salt, False)
+        new_text, nspans, nidents = trk_render(c["new"], fam, olduids, salt, True)
         prior = trk_prior(old_text, ospans, c["oa"], shape, salt)
         rep = AUTHOR_ID[c["r"]]
         r = call([{"id": 1, "op": "trk_update", "old": old_text, "new": new_text, "attrs": prior, "author": rep, "ts": 2}],
@@ -648,8 +648,16 @@ def execute_tracker(args):
                     return s
                 obs["rtOK"] = expand(more[1]["back"]) == expand(r["lines"])
                 obs["bounded"] = obs["bounded"] and all(x["s"] <= x["e"] <= n and x["sb"] and x["eb"] for x in more[1]["attrs"])
+        new_abs = c["new"]
+        if fam == "blankfresh":
+            # fresh lines are pure white space in this family: to the specification they are not lines at all
+            keep = [i for i, (u, w) in enumerate(c["new"]) if u in olduids]
+            new_abs = [c["new"][i] for i in keep]
+            for k in ("la", "tl"):
+                if len(obs[k]) == len(c["new"]):
+                    obs[k] = [obs[k][i] for i in keep]
         events = [{"ev": "reset", "run": run_id},
-                  {"ev": "Upd", "old": c["old"], "oa": c["oa"], "new": c["new"], "r": c["r"], "kind": c["kind"], "obs": obs}]
+                  {"ev": "Upd", "old": c["old"], "oa": c["oa"], "new": new_abs, "r": c["r"], "kind": c["kind"], "obs": obs}]
         return events, info, None
     except Exception as e:
         import traceback
@@ -698,7 +706,8 @@ ING_PRESETS = ["claude", "codex", "gemini", "continue-cli", "cursor", "github-co
                "opencode", "ai_tab", "nosuchpreset"]
 ING_SHAPES = ["valid", "empty", "notjson", "truncated", "null", "array", "number", "string", "wrongtypes", "missing",
               "huge", "deep", "nul", "stdin_empty", "stdin_garbage", "noarg", "binarybytes"]
-ING_LAYOUTS = ["single", "nested", "multi", "bare", "none"]
+ING_LAYOUTS = ["single", "nested", "multi", "nestedws", "bare", "none"]
+ING_BATCH_LOCS = ["in1abs", "in2", "outside", "otherrepo", "missing"]
 ING_LOCS = ["in1rel", "in1abs", "in2", "outside", "dotdot", "missing", "dir", "binary", "otherrepo", "nofiles", "dirty_outside"]
 
 
@@ -724,6 +733,9 @@ class IngestEnv:
         elif layout == "multi":
             self.repos["R1"] = self.mkrepo(os.path.join(self.root, "a"), "f1.txt")
             self.repos["R2"] = self.mkrepo(os.path.join(self.root, "b"), "f2.txt")
+        elif layout == "nestedws":
+            self.repos["R1"] = self.mkrepo(os.path.join(self.root, "outer"), "f1.txt")
+            self.repos["R2"] = self.mkrepo(os.path.join(self.root, "outer", "vendor", "inner"), "f2.txt")
         elif layout == "bare":
             subprocess.run(["/usr/bin/git", "init", "-q", "--bare", self.root], env=self.env, check=True)
         self.repos["R3"] = self.mkrepo(os.path.join(self.dir, "other"), "f3.txt")
@@ -813,9 +825,13 @@ class IngestEnv:
         shutil.rmtree(self.dir, ignore_errors=True)
 
 
-def ingest_payload(shape, preset, kind, env, loc, salt):
+def ingest_payload(shape, preset, kind, env, loc, salt, loc2=None):
     path, absf, base = env.target(loc)
     files = [path] if path is not None else []
+    if loc2:
+        p2 = env.target(loc2)[0]
+        if p2 is not None:
+            files.append(p2)
     tpath = os.path.join(env.dir, "11111111-2222-3333-4444-555555555555.jsonl")
     v1 = {"type": "ai_agent" if kind == "ai" else "human", "repo_working_dir": env.root}
     if kind == "ai":
@@ -870,22 +886,21 @@ def ingest_payload(shape, preset, kind, env, loc, salt):
     return ""
 
 
-def execute_ingest(args):
-    gitai, scratch, cfg, behaviour, run_id = args
-    info = {"run": run_id}
-    env = None
+def _ingest_once(gitai, scratch, c, salt, locs):
+    """one workspace, one hook call reporting the files at `locs` -> (obs of the call, {loc: recorded roles}, info)"""
+    env = IngestEnv(scratch, c["lay"])
     try:
-        c = behaviour[0]
-        salt = cfg.get("salt", 0)
-        env = IngestEnv(scratch, c["lay"])
-        path, absf, base = env.target(c["loc"])
-        if absf and c["shape"] == "valid" and c["loc"] != "binary":
-            with open(absf, "a") as fh:
-                fh.write("line written by the agent\n")
-        elif absf and c["loc"] == "binary":
-            with open(absf, "ab") as fh:
-                fh.write(b"\x00\x01more")
-        payload = ingest_payload(c["shape"], c["preset"], c["kind"], env, c["loc"], salt)
+        bases = {}
+        for loc in locs:
+            path, absf, base = env.target(loc)
+            bases[loc] = base
+            if absf and c["shape"] == "valid" and loc != "binary":
+                with open(absf, "a") as fh:
+                    fh.write("line written by the agent\n")
+            elif absf and loc == "binary":
+                with open(absf, "ab") as fh:
+                    fh.write(b"\x00\x01more")
+        payload = ingest_payload(c["shape"], c["preset"], c["kind"], env, locs[0], salt, locs[1] if len(locs) > 1 else None)
         cmd = [gitai, "checkpoint", c["preset"]]
         stdin = None
         if c["shape"] == "noarg":
@@ -901,7 +916,7 @@ def execute_ingest(args):
             stdin = b"\xff\xfe{\"type\": \"ai_agent\"" + b"\x80" * 50
         elif len(payload) > 100000:
             cmd += ["--hook-input", "stdin"]
-            stdin = payload.encode("utf-8", errors="surrogatepass") if False else payload.encode("utf-8", errors="replace")
+            stdin = payload.encode("utf-8", errors="replace")
         else:
             cmd += ["--hook-input", payload]
         t0 = time.time()
@@ -911,27 +926,49 @@ def execute_ingest(args):
             rc, timeout, err = p.returncode, False, p.stderr.decode(errors="replace")
         except subprocess.TimeoutExpired:
             rc, timeout, err = -1, True, ""
-        except ValueError as e:          # embedded NUL cannot be passed in argv: send it on stdin instead
+        except ValueError:               # embedded NUL cannot be passed in argv: send it on stdin instead
             cmd = cmd[:3] + ["--hook-input", "stdin"]
             p = subprocess.run(cmd, cwd=env.root, env=env.env, input=payload.encode("utf-8", errors="replace"),
                                stdout=subprocess.PIPE, stderr=subprocess.PIPE, timeout=60)
             rc, timeout, err = p.returncode, False, p.stderr.decode(errors="replace")
-        roles, readable = env.recorded(base)
-        obs = {"exit": rc if rc >= 0 else 128 - rc, "timeout": timeout, "panic": "panicked at" in err or "RUST_BACKTRACE" in err,
-               "readable": readable, "recorded": roles}
-        info.update({"cmd": " ".join(cmd)[:300], "stderr": err[-400:], "secs": round(time.time() - t0, 2)})
+        rec = {}
+        readable = True
+        for loc in locs:
+            roles, rd = env.recorded(bases[loc])
+            rec[loc] = roles
+            readable = readable and rd
+        obs = {"exit": rc if rc >= 0 else 128 - rc, "timeout": timeout,
+               "panic": "panicked at" in err or "RUST_BACKTRACE" in err, "readable": readable}
+        return obs, rec, {"cmd": " ".join(cmd)[:300], "stderr": err[-400:], "secs": round(time.time() - t0, 2)}
+    finally:
+        env.cleanup()
+
+
+def execute_ingest(args):
+    gitai, scratch, cfg, behaviour, run_id = args
+    info = {"run": run_id}
+    try:
+        c = behaviour[0]
+        salt = cfg.get("salt", 0)
+        loc2 = c.get("loc2", "-")
+        if loc2 == "-":
+            obs, rec, more = _ingest_once(gitai, scratch, c, salt, [c["loc"]])
+            obs.update({"recorded": rec[c["loc"]], "recorded2": [], "alone": rec[c["loc"]], "alone2": []})
+        else:
+            obs, rec, more = _ingest_once(gitai, scratch, c, salt, [c["loc"], loc2])
+            o1, r1, _ = _ingest_once(gitai, scratch, c, salt, [c["loc"]])
+            o2, r2, _ = _ingest_once(gitai, scratch, c, salt, [loc2])
+            obs.update({"recorded": rec[c["loc"]], "recorded2": rec[loc2], "alone": r1[c["loc"]], "alone2": r2[loc2]})
+        info.update(more)
         events = [{"ev": "reset", "run": run_id},
                   {"ev": "Hook", "preset": c["preset"], "shape": c["shape"], "lay": c["lay"], "loc": c["loc"], "kind": c["kind"],
-                   "obs": obs}]
+                   "loc2": loc2, "obs": obs}]
         return events, info, None
     except Exception as e:
         import traceback
         return None, info, "%s\n%s" % (e, traceback.format_exc())
-    finally:
-        if env is not None:
-            env.cleanup()
 
 
 def ingest_tags(beh):
     c = beh[0]
-    return frozenset(["%s|%s|%s|%s|%s" % (c["preset"], c["shape"], c["lay"], c["loc"], c["kind"])])
+    return frozenset(["%s|%s|%s|%s|%s|%s" % (c["preset"], c["shape"], c["lay"], c["loc"], c["kind"], c.get("loc2", "-"))])
